@@ -2,6 +2,7 @@ import Verif.Model.SvgNum
 import Verif.Proofs.SvgDoc
 import Verif.Proofs.SvgDocColor
 import Verif.Proofs.SvgDocDim
+import Verif.Proofs.SvgDocChar
 import Verif.Proofs.Xml
 /-!
 # C05B — SVG minification keeps the element tree, the functional attributes and their values (document loop)
@@ -16,7 +17,7 @@ they are (element text — see `text_chars_counterexample` and docs/C05B.md for 
 -/
 namespace Verif.Props.C05B
 open Verif.SvgDoc Verif.Model.SvgDoc Verif.Spec.SvgDocSpec
-open Verif.Proofs.SvgDoc Verif.Proofs.SvgDocColor Verif.Proofs.SvgDocDim
+open Verif.Proofs.SvgDoc Verif.Proofs.SvgDocColor Verif.Proofs.SvgDocDim Verif.Proofs.SvgDocChar
 
 /-! ## the structural clause -/
 
@@ -254,13 +255,109 @@ def attr_value_full : Prop :=
 
 /-! ## character data -/
 
+/-- **chardata_written** (since /repo d582c28 the guard is the last step): the character data written for a text
+token, for style element text (after the sub-minifier) and for a CDATA section written as text is exactly
+`escapeCDEnd(d, bw.n)` of the final data `d` — for every `sub`, every bracket count -/
+theorem chardata_written (e : Env) (br : Nat) (p : PTok) (d : List Char) (h : (fillAt e br p).1 = STok.text d) :
+    (∃ t, p = .tok t) ∨ ∃ d0, d = escCD br d0 := by
+  cases p with
+  | tok t => exact Or.inl ⟨t, rfl⟩
+  | textTok d0 => simp only [fillAt, STok.text.injEq] at h; exact Or.inr ⟨d0, h.symm⟩
+  | cdataTok dt tx =>
+    simp only [fillAt, cdataOutAt] at h
+    split at h
+    · simp only [STok.text.injEq] at h; exact Or.inr ⟨_, h.symm⟩
+    · simp at h
+  | styleText m pl => simp only [fillAt, STok.text.injEq] at h; exact Or.inr ⟨_, h.symm⟩
+  | styleCData m dt tx =>
+    simp only [fillAt, cdataOutAt] at h
+    split at h
+    · simp only [STok.text.injEq] at h; exact Or.inr ⟨_, h.symm⟩
+    · simp at h
+  | styleAttr n m pl => simp [fillAt, mkAttr] at h
+  | pathAttr n pl => simp [fillAt, mkAttr] at h
+
+/-- style element text: what is written is the guard applied to the payload or to a result of `sub` that is still
+character data (`styleData`) -/
+theorem style_text_token (e : Env) (br : Nat) (m pl : List Char) :
+    (fillAt e br (.styleText m pl)).1 = STok.text (escCD br (styleData e m false pl)) := rfl
+
 /-- **text_cdend_ok** (since /repo 2fde2e2; former finding K-C05B-11): whatever number `br` of `]` ends the output
-written so far, the character data written by the text branch and by the CDATA-as-text branch (`escapeCDEnd(·, bw.n)`)
-never completes the sequence `]]>` — neither inside the token nor together with the preceding output — and the
-number of `]` it leaves at the end is the one `bracketWriter` records.  No hypothesis on the data. -/
+written so far, character data written through `escapeCDEnd(·, bw.n)` never completes the sequence `]]>` — neither
+inside the token nor together with the preceding output — and the number of `]` it leaves at the end is the one
+`bracketWriter` records.  No hypothesis on the data, hence none on the style sub-minifier. -/
 theorem text_cdend_ok (br : Nat) (d : List Char) :
     Verif.Spec.Xml.cdAuto br (escCD br d) = false ∧
     Verif.Proofs.Xml.cdState br (escCD br d) = brAfter br d := Verif.Proofs.Xml.escCD_free d br
+
+/-- the guard introduces no `<` -/
+theorem escCD_nolt (d : List Char) (h : ∀ c ∈ d, c ≠ '<') : ∀ (n : Nat), ∀ c ∈ escCD n d, c ≠ '<' := by
+  induction d with
+  | nil => intro n c hc; simp [escCD, Verif.Model.Xml.escCD] at hc
+  | cons a r ih =>
+    intro n c hc
+    have hr : ∀ c ∈ r, c ≠ '<' := fun c hc => h c (List.mem_cons_of_mem _ hc)
+    simp only [escCD, Verif.Model.Xml.escCD] at hc
+    split at hc
+    · simp only [List.mem_cons] at hc
+      rcases hc with hc | hc
+      · rw [hc]; exact h a (List.mem_cons_self)
+      · exact ih hr _ c hc
+    · split at hc
+      · simp only [List.mem_cons] at hc
+        rcases hc with hc | hc | hc | hc | hc
+        · rw [hc]; decide
+        · rw [hc]; decide
+        · rw [hc]; decide
+        · rw [hc]; decide
+        · exact ih hr _ c hc
+      · simp only [List.mem_cons] at hc
+        rcases hc with hc | hc
+        · rw [hc]; exact h a (List.mem_cons_self)
+        · exact ih hr _ c hc
+
+/-! ### the style sub-minifier needs no contract (since /repo d582c28) -/
+
+/-- **style_data_chardata**: style element text and style attribute values — the data that is written is the
+payload itself or a result of `sub` that passed `isCharData`; so if the payload is character data, so is what is
+written, *for every* `sub` -/
+theorem style_data_chardata (e : Env) (mime : List Char) (inl : Bool) (p : List Char) (hp : isCharData p = true) :
+    isCharData (styleData e mime inl p) = true := by
+  unfold styleData
+  split
+  · split
+    · next h => exact h
+    · exact hp
+  · exact hp
+
+/-- **isCharData_sound**: a byte string accepted by `isCharData` contains no `<`, and every `&` in it starts a complete
+character or entity reference in the sense of the specification (`Spec.Xml.decodeText` yields no `bad` item) -/
+theorem isCharData_sound (b : List Char) (h : isCharData b = true) :
+    (∀ c ∈ b, c ≠ '<') ∧ (Verif.Spec.Xml.decodeText b).all notBad = true :=
+  ⟨isCharData_nolt b h, isCharData_refs b h⟩
+
+/-- the style text written: no `<` (for every `sub`), and no `]]>` with what precedes it -/
+theorem style_text_written_ok (e : Env) (br : Nat) (mime p : List Char) (hp : isCharData p = true) :
+    (∀ c ∈ escCD br (styleData e mime false p), c ≠ '<') ∧
+    Verif.Spec.Xml.cdAuto br (escCD br (styleData e mime false p)) = false :=
+  ⟨escCD_nolt _ (isCharData_sound _ (style_data_chardata e mime false p hp)).1 br, (text_cdend_ok br _).1⟩
+
+/-- **style_cdata_section**: a style CDATA section that is rewritten is `<![CDATA[` result `]]>` with a result that
+does not contain `]]>` — the section ends where it should, for every `sub` -/
+theorem style_cdata_section (e : Env) (mime d tx : List Char) :
+    styleSection e mime d tx = (d, tx) ∨
+    (∃ out, styleSection e mime d tx = (cdataOpen ++ out ++ cdataEnd, out) ∧ hasCdataEnd out = false) := by
+  unfold styleSection
+  split
+  · next out _ =>
+    split
+    · exact Or.inl rfl
+    · next h => exact Or.inr ⟨out, rfl, by simpa using h⟩
+  · exact Or.inl rfl
+
+example : isCharData "a{b:c&amp;}".toList = true ∧ isCharData "a{b:c&amp}".toList = false ∧
+    isCharData "a:&lt".toList = false ∧ isCharData "&#x3c;&#60;&a.b-c;".toList = true ∧ isCharData "a<b".toList = false ∧
+    hasCdataEnd "a[b]]>c{d:e}".toList = true := by decide
 
 /-- at the start of the output: the data contains no `]]>` at all -/
 theorem text_no_cdend (d : List Char) : Verif.Spec.Xml.hasCdEnd (escCD 0 d) = false := by
@@ -300,13 +397,21 @@ theorem foreign_object_verbatim (num : List Char → List Char) (o : SvgOpts) (s
         ((r.take (printLen 0 false r)).map PTok.tok ++ plan num o st (printLen 0 false r) r) := by
   simp [plan, h, hc]
 
-/-- a processing instruction other than the XML declaration is copied token by token (since /repo 5562ac0) -/
+/-- a processing instruction other than the XML declaration is copied token by token (since /repo 5562ac0), through
+`?>` or through the `>` / `/>` token that ended it for the lexer, which is written with a space in front (59fe76b) -/
 theorem pi_verbatim (num : List Char → List Char) (o : SvgOpts) (st : St) (n : List Char) (r : List STok)
     (h : n ≠ ['x', 'm', 'l']) :
     plan num o st 0 (STok.startTagPI n :: r) =
-      PTok.tok (STok.startTagPI n) :: ((r.take (piLen r)).map PTok.tok ++ plan num o st (piLen r) r) := by
+      PTok.tok (STok.startTagPI n) :: (((r.take (piLen r)).flatMap piOut).map PTok.tok ++ plan num o st (piLen r) r) := by
   have : (n == ['x', 'm', 'l']) = false := by simpa using h
   simp [plan, this]
+
+/-- tokens of `<?p a>b?><svg/>` -/
+def exPiGt : List STok :=
+  [.startTagPI ['p'], .attr [' ', 'a'] ['a'] none, .startTagClose, .text ['b', '?', '>'], .startTag ['s', 'v', 'g'],
+   .startTagCloseVoid]
+
+example : svgMinify idEnv ⟨false, false⟩ exPiGt = "<?p a >b?><svg/>".toList := by decide +kernel
 
 /-- tokens of `<svg:g><foreignObject></foreignObject></svg:g>` (K-C05B-8) -/
 def exEmptyFO : List STok :=
